@@ -131,6 +131,13 @@ let handle (toks : string list) : string =
       (match te_compute opsFloat near0 mn pinv (nat_of_int_e n) d sd with
        | None -> "throw"
        | Some (ev, q) -> let b = Buffer.create 2048 in pv b ev; pm b q; Buffer.contents b)
+  | "schur" :: rest ->
+      let r = { rest } in
+      let n = rint r in let h = rmat r n n in
+      let eps = ofl !consts.(0) in let mn = ofl !consts.(5) in
+      (match sc_compute opsFloat eps mn (nat_of_int_e n) h with
+       | None -> "throw"
+       | Some (t, u) -> let b = Buffer.create 4096 in pm b t; pm b u; Buffer.contents b)
   | "m_heig" :: rest ->
       let r = { rest } in
       let n = rint r in let scale = rfl r in let t = rmat r n n in
